@@ -233,6 +233,16 @@ def F29():
     return r != ("int", ("object", 1, 2)), f"f(1, 2) with call_next(y=y, x=x): {str(r)[:90]}"
 
 
+def F33():
+    """C03: a method whose parameters all have defaults rejects the call without arguments."""
+    @ovld
+    def f(x: int = 3): return ("int", x)
+    @ovld
+    def g(*, k: int = 1): return ("k", k)
+    r = (outcome(lambda: f()), outcome(lambda: g()), f(4))
+    return r[0] != ("int", 3) or r[1] != ("k", 1), f"f() -> {str(r[0])[:70]}; g() -> {str(r[1])[:40]}; f(4) -> {r[2]!r}"
+
+
 # --------------------------------------------------------------------------- C18 / C19
 def F05():
     """C18: a failed build leaves the generated entry point live over a partially filled table."""
@@ -457,7 +467,7 @@ def F20():
 
 
 ALL = ["F01", "F02", "F03", "F04", "F05", "F06", "F07", "F08", "F09", "F10", "F11",
-       "F12", "F13", "F14", "F15", "F16", "F17", "F18", "F19", "F20", "F21", "F22", "F29"]
+       "F12", "F13", "F14", "F15", "F16", "F17", "F18", "F19", "F20", "F21", "F22", "F29", "F33"]
 
 if __name__ == "__main__":
     ids = sys.argv[1:] or ALL
